@@ -17,6 +17,7 @@ func VerifH_C03_preprocessor_stop() {
 	config.VerifSet(&config.Config{WorkersCount: 1 + verifrt.Choice("workers-1", 2)})
 	in := make(chan *models.Item, 1)
 	out := make(chan *models.Item, verifrt.Choice("downstream-capacity", 2)) // 0: nobody takes the seed
+	late := false
 	err := Start(in, out)
 	verifrt.Assert(err == nil, "C03 stage starts")
 	verifrt.Quiesce()
@@ -26,6 +27,10 @@ func VerifH_C03_preprocessor_stop() {
 		pause.Pause("verif")
 		verifrt.Settle()
 		verifrt.Cover("stop-while-paused")
+		verifrt.Quiesce() // every worker has seen the pause and waits to acknowledge it
+		in <- models.NewItem("late", &models.URL{Raw: "http://x.example/late"}, "") // work arrives while the stage is paused
+		late = true
+		verifrt.Cover("work-arrives-while-paused")
 	case 2:
 		pause.Pause("verif")
 		verifrt.Settle()
@@ -34,6 +39,9 @@ func VerifH_C03_preprocessor_stop() {
 	}
 	Stop() // a hang is reported by the engine as a deadlock
 	verifrt.Cover("stopped")
+	if late {
+		verifrt.Assert(len(in) == 1, "C14 a paused worker takes no work, also when its stage is stopped while paused")
+	}
 }
 
 // VerifH_C17_preprocessor_gauge: the worker gauge of this stage equals the number of live workers and is zero after stop,
